@@ -19,7 +19,8 @@ PROPS = {
         "title": "exactly-once delivery",
         "rules": [r_m1.rule_atom, r_m1.rule_one, r_m1.rule_prov, r_m1.rule_amt, r_m1.rule_clamp, r_m1.rule_endguard,
                   r_m1.rule_complete, r_m1.rule_ctor, r_ticket.rule_ticket, r_ticket.rule_gate, r_live.rule_amt_pub, r_m1.rule_exact, r_fwd.rule_siblings, r_paths.rule_paths, r_fwd.rule_wrap,
-                  r_ovf.rule_ovf, r_ovf.rule_ovf_ticket],
+                  r_ovf.rule_ovf, r_ovf.rule_ovf_ticket,
+                  r_live.rule_live, r_own.rule_view],
         "explanation": "Decides that the code is an instance of the fetch_add-interval protocol (DESIGN 1.2, M1/M2): for every "
                        "world (5 implementors + 4 adaptor instantiations) x every pull unit (single, one-shot chunk, buffered) "
                        "the unit is evaluated with crate-local callees inlined; rules: ATOM (who may write the counters; no "
@@ -37,7 +38,8 @@ PROPS = {
     },
     "C02": {
         "title": "index fidelity",
-        "rules": [r_m1.rule_prov, r_m1.rule_atom, r_live.rule_amt_pub, r_m1.rule_exact, r_fwd.rule_each, r_fwd.rule_fwd, r_fwd.rule_wrap],
+        "rules": [r_m1.rule_prov, r_m1.rule_atom, r_live.rule_amt_pub, r_m1.rule_exact, r_fwd.rule_each, r_fwd.rule_fwd, r_fwd.rule_wrap,
+                  r_own.rule_view],
         "explanation": "PROV: every Next.idx / NextChunk.begin_idx and every storage access index is the reservation result "
                        "itself (for ranges: begin + start, the one permitted addition); ATOM.c: no index from a counter load; "
                        "AMT.pub: the ticket implementor advances now-serving by its full reservation (ticket == position); "
@@ -50,7 +52,8 @@ PROPS = {
     "C03": {
         "title": "chunk contract",
         "rules": [r_m1.rule_clamp, r_m1.rule_ctor, r_m1.rule_amt, r_m1.rule_prov, r_m1.rule_nonempty, r_m1.rule_exact, r_m1.rule_complete,
-                  r_ovf.rule_ovf, r_ovf.rule_zero],
+                  r_ovf.rule_ovf, r_ovf.rule_zero,
+                  r_own.rule_view],
         "explanation": "CLAMP/AMT: a chunk is [begin, min(begin+n, LEN)) built from the reserved n; COMPLETE: clamped to exactly "
                        "LEN, so it is shorter than n only at the end; NONEMPTY: Some only under begin < end of the very extent "
                        "handed out; EXACT: the wrapper's buffered chunk announces filled - consumed and yields exactly that, "
@@ -64,7 +67,8 @@ PROPS = {
         "rules": [r_m1.rule_one, r_m1.rule_prov, r_m1.rule_atom, r_ticket.rule_ticket, r_ticket.rule_gate, r_live.rule_amt_pub,
                   r_ticket.rule_ord, r_fwd.rule_fwd, r_m1.rule_endguard, r_paths.rule_paths,
                   r_m1.rule_exact, r_m1.rule_amt, r_m1.rule_nonempty, r_m1.rule_complete,
-                  r_ovf.rule_ovf_ticket],
+                  r_ovf.rule_ovf_ticket,
+                  r_live.rule_live],
         "explanation": "The structural content of linearizability: each pull has exactly one RMW on the position counter inside "
                        "the call (ONE), what it delivers is a function of that RMW's result only (PROV), the counter only grows "
                        "on pull paths and is never stored to by pulls (ATOM), the wrapper serves tickets on equality only and "
@@ -78,7 +82,8 @@ PROPS = {
         "title": "the end is permanent",
         "rules": [r_m1.rule_atom, r_m1.rule_endguard, r_m1.rule_complete, r_ticket.rule_sticky, r_state.rule_done,
                   r_ticket.rule_gate, r_state.rule_len, r_paths.rule_paths, r_state.rule_skip,
-                  r_ovf.rule_ovf],
+                  r_ovf.rule_ovf,
+                  r_live.rule_live],
         "explanation": "ATOM.b: no pull stores to the position counter (it only grows); ENDGUARD: Some only under reserved idx < "
                        "LEN on the index itself with LEN immutable; STICKY: the end flag is only ever stored true; DONE-SET: "
                        "whenever the wrapped iterator returned None the flag is set before the pull returns (the exhausted "
